@@ -35,12 +35,29 @@
         minimum deposit are such pairs ((0,0) = the empty coins = feature switched off; a
         component 0 = that denom is not part of the coin set); "deposit covers the minimum"
         (Coins.SafeSub has no negative / IsAllGTE) is componentwise <=;
-      - the tally: a single validator whose delegator casts the only votes, so a proposal passes
-        iff its last vote is Yes ([p_vote]); deposits are always refunded at the end of the voting
-        or deposit period (burn flags off), a cancellation keeps floor(ratio 1/2) of each
-        depositor's total;
-      - no expedited proposals; every proposal message is a sanction-module message signed by
-        the governance account;
+      - the tally (keeper.Tally): a single validator whose only delegator casts the only vote,
+        possibly a weighted one ([p_vote] = the weights of Yes / Abstain / No / NoWithVeto in
+        permille, summing to 1000).  The voter holds the whole bonded stake, so the ratios of
+        keeper.Tally are ratios of the weights: no vote = quorum not reached (rejected, deposits
+        burned iff BurnVoteQuorum); all Abstain = rejected; NoWithVeto share > VetoThreshold =
+        rejected with veto (deposits burned iff BurnVoteVeto); Yes share of the non-abstaining
+        weight > Threshold (ExpeditedThreshold for an expedited proposal) = passes; the
+        thresholds are config fields in permille (the harness reads them from the gov params);
+        Tally deletes the votes it counted;
+      - expedited proposals (ExpeditedMinDeposit, ExpeditedVotingPeriod = half the VotingPeriod of
+        the moment, by harness convention): one that does not pass at the end of its expedited voting
+        period is converted to a regular proposal (deposits kept, votes gone, new end =
+        voting start + VotingPeriod of that moment, possibly already in the past: it is then
+        tallied by the NEXT EndBlocker) and AfterProposalVotingPeriodEnded is called while the
+        status is still "voting period": the sanction hook runs its deposit/voting branch again
+        (creates temporary entries with the params of that moment); on an unsanctionable address
+        the hook returns an error (since the fix "sanction gov hook returns an error instead of
+        panicking": before it, the EndBlocker panicked and the chain halted), the EndBlocker drops
+        the hook's cache context (no entry of that hook run is kept), logs and goes on;
+      - a cancellation keeps floor(ratio 1/2) of each depositor's total; BurnProposalDepositPrevote
+        / BurnVoteQuorum / BurnVoteVeto are config fields;
+      - every proposal message is a sanction-module message signed by the governance account;
+      - deposits must be in denoms of the gov MinDeposit (validateDepositDenom);
       - accounts of the universe are plain accounts (no vesting, holds, markers, quarantine), so
         the only reasons a debit fails are funds and the sanction restriction; where the money of
         a delegation / fee / deposit goes (module pools) is not tracked;
@@ -58,7 +75,14 @@ Definition nonneg2 (x : amt2) : bool := (0 <=? fst x) && (0 <=? snd x).
 Definition add2 (x y : amt2) : amt2 := (fst x + fst y, snd x + snd y).
 
 Record config := { c_unsanct : list N;      (* addresses that cannot be sanctioned *)
-                   c_gov_min : amt2 }.      (* gov MinDeposit (enters the voting period) *)
+                   c_gov_min : amt2;        (* gov MinDeposit (enters the voting period) *)
+                   c_exp_min : amt2;        (* gov ExpeditedMinDeposit *)
+                   c_thr : Z;               (* Threshold, permille *)
+                   c_exp_thr : Z;           (* ExpeditedThreshold, permille *)
+                   c_veto : Z;              (* VetoThreshold, permille *)
+                   c_burn_veto : bool;      (* BurnVoteVeto *)
+                   c_burn_quorum : bool;    (* BurnVoteQuorum *)
+                   c_burn_prevote : bool }. (* BurnProposalDepositPrevote *)
 
 Definition memN (a : N) (l : list N) : bool := existsb (N.eqb a) l.
 
@@ -72,13 +96,18 @@ Inductive msg :=
 
 Inductive pstatus := PDeposit | PVoting.
 
+(** A (weighted) vote: weights of Yes, Abstain, No, NoWithVeto in permille. *)
+Definition ballot := (Z * Z * Z * Z)%type.
+
 Record proposal := {
   p_id : N; p_proposer : N; p_msgs : list msg;
   p_deps : list (N * amt2);     (* depositor |-> total deposited (one Deposit record each) *)
   p_status : pstatus;
   p_dep_end : Z;                (* DepositEndTime *)
+  p_vote_start : Z;             (* VotingStartTime, meaningful when PVoting *)
   p_vote_end : Z;               (* VotingEndTime, meaningful when PVoting *)
-  p_vote : option bool }.       (* the validator's delegator's current vote: Some true = Yes *)
+  p_vote : option ballot;       (* the only voter's current vote *)
+  p_expedited : bool }.
 
 (** A temporary entry: (address, proposal id, true = sanction / false = unsanction).
     The list is read front to back: a later write for the same key shadows earlier ones. *)
@@ -192,6 +221,22 @@ Fixpoint exec_msgs (c : config) (s : state) (ms : list msg) : option state :=
 
 (** ** Governance *)
 
+Definition ballot_ok (v : ballot) : bool :=
+  let '(y, a, n, w) := v in
+  (0 <=? y) && (0 <=? a) && (0 <=? n) && (0 <=? w) && (y + a + n + w =? 1000).
+
+(** keeper.Tally for the single voter: (passes, burn the deposits). *)
+Definition tally (c : config) (expedited : bool) (v : option ballot) : bool * bool :=
+  match v with
+  | None => (false, c_burn_quorum c)                       (* quorum not reached *)
+  | Some (y, a, n, w) =>
+      let total := y + a + n + w in
+      if total - a =? 0 then (false, false)                (* everybody abstains *)
+      else if c_veto c * total <? w * 1000 then (false, c_burn_veto c)
+      else if (if expedited then c_exp_thr c else c_thr c) * (total - a) <? y * 1000 then (true, false)
+      else (false, false)
+  end.
+
 Definition total_deposit (pr : proposal) : amt2 := fold_left (fun acc d => add2 acc (snd d)) (p_deps pr) (0, 0).
 
 Fixpoint get_prop (pid : N) (l : list proposal) : option proposal :=
@@ -251,28 +296,46 @@ Fixpoint add_dep (who : N) (amt : amt2) (l : list (N * amt2)) : list (N * amt2) 
   | (w, v) :: r => if N.eqb w who then (w, add2 v amt) :: r else (w, v) :: add_dep who amt r
   end.
 
-Definition with_deposit (pr : proposal) (deps : list (N * amt2)) (st : pstatus) (vend : Z) : proposal :=
+Definition with_deposit (pr : proposal) (deps : list (N * amt2)) (st : pstatus) (vstart vend : Z) : proposal :=
   {| p_id := p_id pr; p_proposer := p_proposer pr; p_msgs := p_msgs pr; p_deps := deps;
-     p_status := st; p_dep_end := p_dep_end pr; p_vote_end := vend; p_vote := p_vote pr |}.
+     p_status := st; p_dep_end := p_dep_end pr; p_vote_start := vstart; p_vote_end := vend;
+     p_vote := p_vote pr; p_expedited := p_expedited pr |}.
 
-Definition with_vote (pr : proposal) (v : option bool) : proposal :=
+Definition with_vote (pr : proposal) (v : option ballot) : proposal :=
   {| p_id := p_id pr; p_proposer := p_proposer pr; p_msgs := p_msgs pr; p_deps := p_deps pr;
-     p_status := p_status pr; p_dep_end := p_dep_end pr; p_vote_end := p_vote_end pr; p_vote := v |}.
+     p_status := p_status pr; p_dep_end := p_dep_end pr; p_vote_start := p_vote_start pr;
+     p_vote_end := p_vote_end pr; p_vote := v; p_expedited := p_expedited pr |}.
+
+(** An expedited proposal that did not pass becomes a regular one: votes gone, new end time. *)
+Definition converted (pr : proposal) (vp : Z) : proposal :=
+  {| p_id := p_id pr; p_proposer := p_proposer pr; p_msgs := p_msgs pr; p_deps := p_deps pr;
+     p_status := p_status pr; p_dep_end := p_dep_end pr; p_vote_start := p_vote_start pr;
+     p_vote_end := p_vote_start pr + vp; p_vote := None; p_expedited := false |}.
+
+(** validateDepositDenom: only denoms of the gov MinDeposit. *)
+Definition denoms_ok (c : config) (amt : amt2) : bool :=
+  ((fst amt =? 0) || (0 <? fst (c_gov_min c))) && ((snd amt =? 0) || (0 <? snd (c_gov_min c))).
+
+Definition min_deposit (c : config) (pr : proposal) : amt2 :=
+  if p_expedited pr then c_exp_min c else c_gov_min c.
+
+Definition voting_period (pr : proposal) (vp : Z) : Z := if p_expedited pr then vp / 2 else vp.
 
 (** keeper.AddDeposit: [vp] is the voting period in the gov params at this moment. *)
 Definition add_deposit (c : config) (s : state) (pid who : N) (amt : amt2) (vp : Z) : option state :=
   match get_prop pid (props s) with
   | None => None
   | Some pr =>
+      if negb (denoms_ok c amt) then None else
       match debit c s who amt with
       | None => None
       | Some s1 =>
           let deps := add_dep who amt (p_deps pr) in
-          let pr1 := with_deposit pr deps (p_status pr) (p_vote_end pr) in
+          let pr1 := with_deposit pr deps (p_status pr) (p_vote_start pr) (p_vote_end pr) in
           let pr2 :=
             match p_status pr with
-            | PDeposit => if le2 (c_gov_min c) (total_deposit pr1)
-                          then with_deposit pr deps PVoting (now s + vp) else pr1
+            | PDeposit => if le2 (min_deposit c pr) (total_deposit pr1)
+                          then with_deposit pr deps PVoting (now s) (now s + voting_period pr vp) else pr1
             | PVoting => pr1
             end in
           let s2 := set_props s1 (put_prop pr2 (props s1)) in
@@ -282,20 +345,22 @@ Definition add_deposit (c : config) (s : state) (pid who : N) (amt : amt2) (vp :
 
 (** MsgSubmitProposal: [dp]/[vp] are the deposit and voting periods in the gov params. *)
 Definition submit (c : config) (s : state) (proposer : N) (ms : list msg) (dep : amt2) (dp vp : Z)
-  : option state :=
+           (expedited : bool) : option state :=
   let pid := next_id s in
   let pr := {| p_id := pid; p_proposer := proposer; p_msgs := ms; p_deps := [];
-               p_status := PDeposit; p_dep_end := now s + dp; p_vote_end := 0; p_vote := None |} in
+               p_status := PDeposit; p_dep_end := now s + dp; p_vote_start := 0; p_vote_end := 0;
+               p_vote := None; p_expedited := expedited |} in
   let s1 := set_next (set_props s (props s ++ [pr])) (N.succ pid) in
   match run_hook c s1 pr with            (* AfterProposalSubmission: total deposit still empty *)
   | None => None
   | Some s2 => add_deposit c s2 pid proposer dep vp
   end.
 
-Definition vote (s : state) (pid : N) (yes : bool) : option state :=
+Definition vote (s : state) (pid : N) (v : ballot) : option state :=
+  if negb (ballot_ok v) then None else
   match get_prop pid (props s) with
   | Some pr => match p_status pr with
-               | PVoting => Some (set_props s (put_prop (with_vote pr (Some yes)) (props s)))
+               | PVoting => Some (set_props s (put_prop (with_vote pr (Some v)) (props s)))
                | PDeposit => None
                end
   | None => None
@@ -318,32 +383,41 @@ Definition cancel (s : state) (who pid : N) : option state :=
         Some (set_props s1 (remove_prop pid (props s1)))
   end.
 
-(** EndBlocker, inactive queue entry: delete, refund, AfterProposalFailedMinDeposit (proposal
-    not found => the proposal's temporary entries are deleted). *)
-Definition expire_one (s : state) (pid : N) : state :=
+(** EndBlocker, inactive queue entry: delete, refund (or burn), AfterProposalFailedMinDeposit
+    (proposal not found => the proposal's temporary entries are deleted). *)
+Definition expire_one (c : config) (s : state) (pid : N) : state :=
   match get_prop pid (props s) with
   | None => s
   | Some pr =>
       let s1 := set_props s (remove_prop pid (props s)) in
-      let s2 := refund_all s1 (p_deps pr) in
+      let s2 := if c_burn_prevote c then s1 else refund_all s1 (p_deps pr) in
       set_temps s2 (del_prop_temps pid (temps s2))
   end.
 
-(** EndBlocker, active queue entry. *)
-Definition tally_one (c : config) (s : state) (pid : N) : state :=
+(** EndBlocker, active queue entry; [vp] is the gov VotingPeriod of this moment. *)
+Definition tally_one (c : config) (vp : Z) (s : state) (pid : N) : state :=
   match get_prop pid (props s) with
   | None => s
   | Some pr =>
-      let s1 := refund_all s (p_deps pr) in
-      let s2 := set_props s1 (remove_prop pid (props s1)) in     (* status becomes final *)
-      match p_vote pr with
-      | Some true =>
+      let '(passes, burn) := tally c (p_expedited pr) (p_vote pr) in
+      if p_expedited pr && negb passes then
+        (* converted to a regular proposal: deposits stay, the hook sees a proposal in its voting
+           period; a hook error is ignored (its cache context is dropped) *)
+        let pr' := converted pr vp in
+        let s1 := set_props s (put_prop pr' (props s)) in
+        match run_hook c s1 pr' with
+        | Some s2 => s2
+        | None => s1
+        end
+      else
+        let s1 := if burn then s else refund_all s (p_deps pr) in
+        let s2 := set_props s1 (remove_prop pid (props s1)) in     (* status becomes final *)
+        if passes then
           match exec_msgs c s2 (p_msgs pr) with
-          | Some s3 => s3                                           (* passed: hook does nothing *)
-          | None => set_temps s2 (del_prop_temps pid (temps s2))    (* failed *)
+          | Some s3 => s3                                            (* passed: hook does nothing *)
+          | None => set_temps s2 (del_prop_temps pid (temps s2))     (* failed: messages rolled back *)
           end
-      | _ => set_temps s2 (del_prop_temps pid (temps s2))           (* rejected *)
-      end
+        else set_temps s2 (del_prop_temps pid (temps s2))            (* rejected *)
   end.
 
 (** Queue order: (end time, id).  [props] is in ascending id order, so a stable insertion sort
@@ -359,11 +433,14 @@ Definition sort_by (key : proposal -> Z) (l : list proposal) : list proposal :=
 Definition is_deposit (pr : proposal) : bool := match p_status pr with PDeposit => true | _ => false end.
 Definition is_voting (pr : proposal) : bool := match p_status pr with PVoting => true | _ => false end.
 
-Definition end_block (c : config) (s : state) : state :=
+(** The queue walk sees the queue as it was when the walk started (the store iterator is
+    isolated from writes made during the walk): a proposal converted in this block is not tallied
+    again in the same block, even when its new end time is already over. *)
+Definition end_block (c : config) (vp : Z) (s : state) : state :=
   let expired := sort_by p_dep_end (filter (fun pr => is_deposit pr && (p_dep_end pr <=? now s)) (props s)) in
-  let s1 := fold_left expire_one (map p_id expired) s in
+  let s1 := fold_left (expire_one c) (map p_id expired) s in
   let due := sort_by p_vote_end (filter (fun pr => is_voting pr && (p_vote_end pr <=? now s)) (props s1)) in
-  fold_left (tally_one c) (map p_id due) s1.
+  fold_left (tally_one c vp) (map p_id due) s1.
 
 (** ** Bank messages *)
 
@@ -413,11 +490,12 @@ Definition to_module (c : config) (s : state) (from : N) (amt : Z) : option stat
 
 (** ** Operations *)
 Inductive op :=
-| OSubmit (proposer : N) (ms : list msg) (dep : amt2) (dp vp : Z)
+| OSubmit (proposer : N) (ms : list msg) (dep : amt2) (dp vp : Z) (expedited : bool)
 | ODeposit (who pid : N) (amt : amt2) (vp : Z)
-| OVote (pid : N) (yes : bool)
+| OVote (pid : N) (v : ballot)
 | OCancel (who pid : N)
-| ONewBlock (t : Z)                       (* EndBlocker at [now], then the next block at time t *)
+| ONewBlock (t : Z) (vp : Z)              (* EndBlocker at [now] (gov VotingPeriod = vp), then the
+                                             next block at time t *)
 | ODirect (authority_ok : bool) (m : msg) (* a sanction message delivered straight to the msg server *)
 | OSend (from to : N) (amt : Z)
 | OMultiSend (from : N) (outs : list (N * Z))
@@ -428,11 +506,11 @@ Inductive op :=
 
 Definition step_opt (c : config) (s : state) (o : op) : option state :=
   match o with
-  | OSubmit who ms dep dp vp => if negb (nonneg2 dep) then None else submit c s who ms dep dp vp
+  | OSubmit who ms dep dp vp ex => if negb (nonneg2 dep) then None else submit c s who ms dep dp vp ex
   | ODeposit who pid amt vp => if negb (nonneg2 amt) || zero2 amt then None else add_deposit c s pid who amt vp
-  | OVote pid yes => vote s pid yes
+  | OVote pid v => vote s pid v
   | OCancel who pid => cancel s who pid
-  | ONewBlock t => Some (set_now (end_block c s) t)
+  | ONewBlock t vp => Some (set_now (end_block c vp s) t)
   | ODirect ok m => if ok then exec_msg c s m else None
   | OSend from to amt => send c s from to amt
   | OMultiSend from outs => multi_send c s from outs
